@@ -15,6 +15,8 @@ class HasAbs (K : Type) where
   abs : K → K
 class HasExp (K : Type) where
   exp : K → K
+class HasLog (K : Type) where
+  log : K → K
 
 export HasSqrt (sqrt)
 
@@ -22,6 +24,7 @@ instance : NatCast Float := ⟨Float.ofNat⟩
 instance : HasSqrt Float := ⟨Float.sqrt⟩
 instance : HasAbs Float := ⟨Float.abs⟩
 instance : HasExp Float := ⟨Float.exp⟩
+instance : HasLog Float := ⟨Float.log⟩
 
 instance : HasAbs Rat := ⟨fun q => if q < 0 then -q else q⟩
 
